@@ -133,11 +133,14 @@ class Evolver:
 
     def fresh_prop_name(self, local: set) -> str:
         for _ in range(100):
-            mode = self.draw(st.integers(0, 5))
+            mode = self.draw(st.integers(0, 6))
             if mode == 0:
                 name = self.pick(self.kw_names)
             elif mode == 1:
                 name = self.pick(WORDS_L)
+            elif mode == 6:
+                # words that end in digits, one-letter words (utf8Offset, is64Bit, point3D, xRange)
+                name = self.pick(["utf8", "utf16", "is64", "sha256", "point3", "x", "v2", "base64"]) + self.pick(WORDS_U + ["D", "Bit", "X"])
             else:
                 name = self.pick(WORDS_L) + "".join(self.pick(WORDS_U) for _ in range(self.draw(st.integers(1, 2))))
             if name in self.taken_props or name in local:
@@ -239,6 +242,8 @@ class Evolver:
             optional = self.draw(st.booleans())
         if optional:
             p["optional"] = True
+        elif self.draw(st.integers(0, 3)) == 0:
+            p["optional"] = False   # the flag written out: the same as leaving it away
         if self.draw(st.integers(0, 4)) == 0:
             self.mark(p)
         return p
@@ -370,6 +375,10 @@ class Evolver:
                         local.discard(p["name"])
                         p["name"] = names_left.pop(0)
                         local.add(p["name"])
+                    if not opt and kind == "python-keyword":
+                        p["optional"] = False    # every production once with the flag written out as false
+                    elif not opt:
+                        p.pop("optional", None)
                     props.append(p)
                 self.doc["structures"].append({"name": name, "properties": props})
                 self.keep_inhabitable(props)
